@@ -79,6 +79,19 @@ CHECKS["C19"] = dict(
     design_ref="DESIGN.md section 4 (C19)",
 )
 
+CHECKS["C03"] = dict(
+    category="proof",
+    text="Smoother steps carry the RTS gain (step contracts: G P^- = P Phi^T, xi = m - G m^-, Xi = P - G P^- G^T; merged for the fixed-point smoother); MarkovSequence.evaluate_marginals and Smoother.finalize are verified to return the backward-recursion marginals started from the law at the final output time, calibrated, with filtering marginals stacked; the inductive step of 'smoothed <= filtered' is proved with a sum-of-squares ghost factor; solve_fixed_grid is verified (induction rule over the grid scan) to hand over a final state whose terminal smoothing marginal equals the filtering marginal at the final grid point.",
+    note="N, n, d enumerated; 'RTS recursion = joint smoothing posterior of the linearised model' (chain rule of Gaussian densities) is a lemma about the specification, assumed; agreement of fixed-interval and fixed-point smoothing follows from both being proved against the same specification plus the C09 composition law; solve_adaptive_save_every_step (native Python loop) is not covered",
+    design_ref="DESIGN.md section 4 (C03)",
+)
+CHECKS["C04"] = dict(
+    category="proof",
+    text="MLE mode: per step, running'^2 (n+1) = running^2 n + term^2 with term the whitened RMS of the innovation under the EKF innovation covariance (ghost: C w = r, C C^T = S); at the end scale^2 N = running^2 (with correction) or scale = running, and returned covariances are scale^2 times the unit-scale ones (per dimension for block-diag). Dynamic mode: the per-step scale is the whitened RMS of the residual of the mean-only prediction, the process noise is scaled by it, and it is what is reported. Uncalibrated: scale one.",
+    note="equivariance under the base scale c (means equal, scale/c, calibrated covariances equal, accepted steps equal) follows from the homogeneity of the proved EKF/estimator formulas for damp=0 together with C06/C07 -- this homogeneity argument is a lemma about the specification and is NOT separately machine-checked; smoother finalisation is C03",
+    design_ref="DESIGN.md section 4 (C04)",
+)
+
 NOT_APPLICABLE = {
     "C01": "global accuracy / convergence order against the true ODE solution is not a postcondition of one call nor a data-structure invariant; no contract over the code implies it (DESIGN section 4, C01)",
 }
